@@ -1,12 +1,14 @@
 """C05 — non-anticipation: the p-value after j draws depends only on those j draws."""
 import numpy as np
 
+from fractions import Fraction as F
+
 from . import common as C, nnm, genarith
 
 ANCHORS = nnm.ANCHORS
 
 
-def oracle(rng, cfg, xs, long=False):
+def oracle(rng, cfg, xs, long=False, all_k=False):
     """prefix / tail / truncation clauses of the property on the implementation."""
     bad = []
     n = len(xs)
@@ -36,10 +38,29 @@ def oracle(rng, cfg, xs, long=False):
     elif len(c["hist"]) == k and not (nnm.close(c["hist"][k - 1], a["hist"][k - 1]) or c["hist"][k - 1] <= a["hist"][k - 1]):
         bad.append(("truncating the sample raises the k-th history entry",
                     {"k": k, "xs": xs, "hist_trunc": c["hist"], "hist_full": a["hist"]}))
+    runs = 3
+    if all_k and not bad:
+        # the truncation clause at EVERY cut point of this sample (the k-th entry may only be lowered by truncation, and
+        # only to 0 when the total of the first k draws exceeds N t)
+        for kk in range(1, n):
+            if kk == k:
+                continue
+            ck = nnm.run_impl(cfg, xs[:kk], variant=v)
+            runs += 1
+            if ck["exc"] or len(ck["hist"]) != kk:
+                continue
+            if not eq(ck["hist"][:kk - 1], a["hist"][:kk - 1]):
+                bad.append(("truncating the sample changes an earlier history entry",
+                            {"k": kk, "xs": xs, "hist_trunc": ck["hist"], "hist_full": a["hist"]}))
+                break
+            if not (nnm.close(ck["hist"][kk - 1], a["hist"][kk - 1]) or ck["hist"][kk - 1] <= a["hist"][kk - 1]):
+                bad.append(("truncating the sample raises the k-th history entry",
+                            {"k": kk, "xs": xs, "hist_trunc": ck["hist"], "hist_full": a["hist"]}))
+                break
     if a["aux"] and not eq(a["aux"][:k + 1], b["aux"][:k + 1]):
         bad.append(("the alternative mean / bet applied to observation j depends on observations j, j+1, ...",
                     {"k": k, "xs": xs, "ys": ys, "aux_xs": a["aux"], "aux_ys": b["aux"]}))
-    return bad, 3
+    return bad, runs
 
 
 def run(ctx, res):
@@ -47,6 +68,7 @@ def run(ctx, res):
         nnm.run_replay(ctx, res, None)
         return
     genarith.regenerate(ctx.pid, "nnm_estims", res)   # whole-function skeletons of sjm, welford_mean_var, the estimators and bets
+    genarith.regenerate(ctx.pid, "nnm_masks", res)    # ... and of the six tests (the last-entry rule and the boundary masks decide the truncation clause)
     cases, cr = nnm.run_corr(ctx.pid, ctx.rng, ctx.n(500, 6000), maxlen=ctx.n(12, 14))
     res.corr.append(("NonnegMean.test/estim/bet vs NNM.run_test/run_estim/run_bet", cr, nnm.case_json))
     res.evaluations += len(cases)
@@ -73,7 +95,18 @@ def run(ctx, res):
                 cfg["p"]["f"] = ctx.rng.choice([C.frac(0.5), C.frac(2), C.frac(0.125)])
             lng = True
             nlong += 1
-        bad, runs = oracle(ctx.rng, cfg, xs, long=lng)
+        every = False
+        if not lng and i % 5 == 0 and cfg["N"] is not None:
+            # a sample that exhausts a small population, ending in a run of zeros: the null becomes certain part-way
+            # through while the martingale may still be large; every cut point is checked
+            cfg["N"] = max(3, min(cfg["N"], 14))
+            n_full = cfg["N"]
+            kz = ctx.rng.randint(1, n_full - 1)
+            xs = ([cfg["u"] if ctx.rng.random() < 0.8 else cfg["u"] / 2 for _ in range(n_full - kz)] + [F(0)] * kz)
+            if cfg["kind"] == "bet_agrapa" and ctx.rng.random() < 0.5:
+                cfg["p"]["c_grapa_0"] = cfg["p"]["c_grapa_max"] = ctx.rng.choice([F(1, 10), F(1, 4), F(1, 2)])
+            every = True
+        bad, runs = oracle(ctx.rng, cfg, xs, long=lng, all_k=every)
         res.oracle_runs += runs
         res.evaluations += 1
         if len(set(xs)) > 1:
